@@ -25,6 +25,7 @@ func init() {
 }
 
 func runC19(c *Ctx, r *Run) {
+	checkResultsUsed(c, r, "USE-1", 100)
 	r.Rule("ENC-0", "item framing in hash.WriteAny: variable-width writes are length-prefixed by a fixed-width encoding of len() of the same value on every path; the type switch rejects unknown types")
 	r.Rule("FS-7", "every field of a self-writing struct type is read by its WriteTo (or the codec it delegates to)")
 	r.Rule("ENC-2", "every transcript writer is total on its type: no value is refused")
@@ -717,9 +718,35 @@ func checkLenValidator(c *Ctx, r *Run, rel, typ, method string) {
 	}
 	r.Analysed(c.FuncName(fn))
 	okLen, okZero := false, false
+	var lenK int64 = -1
+	zeroDetail := "no all-zero rejection"
 	allInstrs(fn, func(in ssa.Instruction) {
 		iff, ok := in.(*ssa.If)
 		if !ok {
+			return
+		}
+		// the other accepted form: bytes.Equal(x, Z) with Z an all-zero buffer of exactly the valid length
+		if call, isCall := iff.Cond.(*ssa.Call); isCall && (isCallToPkgFunc(call, "bytes", "Equal")) && len(call.Call.Args) == 2 {
+			var z ssa.Value
+			if call.Call.Args[0] == ssa.Value(fn.Params[0]) || stripConv(call.Call.Args[0]) == ssa.Value(fn.Params[0]) {
+				z = call.Call.Args[1]
+			} else if stripConv(call.Call.Args[1]) == ssa.Value(fn.Params[0]) {
+				z = call.Call.Args[0]
+			}
+			if z != nil {
+				if n, isZero := zeroBufferLen(c, fn, z); isZero {
+					// equal edge returns an error
+					for _, x := range iff.Block().Succs[0].Instrs {
+						if ret, isR := x.(*ssa.Return); isR && len(ret.Results) == 1 && !isNilConst(ret.Results[0]) {
+							if lenK >= 0 && n != lenK {
+								zeroDetail = fmt.Sprintf("the value is compared with an all-zero buffer of %d bytes while its only valid length is %d: the comparison is never true and the all-zero value is accepted", n, lenK)
+							} else {
+								okZero = true
+							}
+						}
+					}
+				}
+			}
 			return
 		}
 		bo, ok := iff.Cond.(*ssa.BinOp)
@@ -737,6 +764,7 @@ func checkLenValidator(c *Ctx, r *Run, rel, typ, method string) {
 					for _, x := range mis.Instrs {
 						if ret, isR := x.(*ssa.Return); isR && len(ret.Results) == 1 && !isNilConst(ret.Results[0]) {
 							okLen = true
+							lenK, _ = constInt(bo.Y)
 						}
 					}
 				}
@@ -755,7 +783,7 @@ func checkLenValidator(c *Ctx, r *Run, rel, typ, method string) {
 	}
 	key := rel + "." + typ + "." + method
 	r.Check("ENC-1", key+"|exact-length", c.Pos(fn.Pos()), okLen, "supporting invariant: "+typ+" has exactly one valid length (so its raw bytes are a fixed-width segment)", "no `len(x) != const -> error` guard")
-	r.Check("COM-1", key+"|rejects-all-zero", c.Pos(fn.Pos()), okZero && lastErr, typ+".Validate refuses an all-zero value", "no all-zero rejection")
+	r.Check("COM-1", key+"|rejects-all-zero", c.Pos(fn.Pos()), okZero && lastErr, typ+".Validate refuses an all-zero value", zeroDetail)
 }
 
 // ---------- DOM-1 ----------
@@ -1339,4 +1367,69 @@ func checkWritersComplete(c *Ctx, r *Run, rule string, impls []writerImpl) {
 				"field "+f.Name()+" of "+name+" is never read by its WriteTo (nor by the codec it delegates to): two values differing only in "+f.Name()+" produce the same transcript bytes, so hashes and commitments over this type are not injective")
 		}
 	}
+}
+
+// zeroBufferLen: v is a byte slice that is all zero by construction — a local make([]byte, K) that is never written,
+// or a package variable initialised with make([]byte, K) and never written elsewhere; returns K.
+func zeroBufferLen(c *Ctx, fn *ssa.Function, v ssa.Value) (int64, bool) {
+	v = stripConv(v)
+	if k, isK := madeLen(v); isK {
+		for _, ref := range *v.Referrers() {
+			switch ref.(type) {
+			case *ssa.IndexAddr, *ssa.Slice:
+				return 0, false
+			}
+		}
+		return k, true
+	}
+	u, ok := v.(*ssa.UnOp)
+	if !ok || u.Op != token.MUL {
+		return 0, false
+	}
+	g, ok := u.X.(*ssa.Global)
+	if !ok || g.Pkg != fn.Pkg {
+		return 0, false
+	}
+	var k int64 = -1
+	stores := 0
+	for _, f := range funcsOfPkg(c, fn.Pkg) {
+		allInstrs(f, func(in ssa.Instruction) {
+			if st, isSt := in.(*ssa.Store); isSt && st.Addr == ssa.Value(g) {
+				stores++
+				if n, isK := madeLen(st.Val); isK {
+					k = n
+				}
+			}
+		})
+	}
+	if init := fn.Pkg.Func("init"); init != nil {
+		allInstrs(init, func(in ssa.Instruction) {
+			if st, isSt := in.(*ssa.Store); isSt && st.Addr == ssa.Value(g) {
+				stores++
+				if n, isK := madeLen(st.Val); isK {
+					k = n
+				}
+			}
+		})
+	}
+	return k, stores == 1 && k >= 0
+}
+
+// madeLen: v is make([]T, K) with constant K (go/ssa renders it as MakeSlice, or as a slice of a new [K]T).
+func madeLen(v ssa.Value) (int64, bool) {
+	v = stripConv(v)
+	switch x := v.(type) {
+	case *ssa.MakeSlice:
+		return constInt(x.Len)
+	case *ssa.Slice:
+		if a, ok := x.X.(*ssa.Alloc); ok && x.Low == nil {
+			if arr, isArr := derefType(a.Type()).Underlying().(*types.Array); isArr {
+				if x.High == nil {
+					return arr.Len(), true
+				}
+				return constInt(x.High)
+			}
+		}
+	}
+	return 0, false
 }
